@@ -165,6 +165,7 @@ package minersc
 // (C38) when the selection dropped every sharder of the previous set, the best-ranked previous sharder
 // of the keep list is added back: that statement must not be dead code
 //@   reachable[adds-back-a-previous-sharder] "nodes = append(nodes, prev[0])"
+//@   ensures[keeps-a-previous-sharder] err == nil ==> (exists k in 0..len(nodes) :: nodes[k].SimpleNode.ID in asptr(lfmbOf(balances), block.Block).MagicBlock.Sharders.NodesMap)
 //@   opaque reduce
 //@   at-call reduce ghost $reduceCalls += 1
 //@   at-call reduce assert[limits-in-force-now] $arg1 == gn.MaxS && $arg2 == gn.XPercent
@@ -279,12 +280,24 @@ package minersc
 // change restarts the phase clock at the current round. The move conditions and phase functions are
 // dispatch-table entries called through local variables: they are assumed to leave the phase node's
 // phase, clock and restart counter alone (their own frames are what discharges that).
+//   $moveFailed / $phaseFuncFailed   specification-only flags: the last call of the phase's move condition /
+//                                    phase function (dispatch-table entries) returned an error
+//@ ghost $moveFailed Bool accumulator
+//@ ghost $phaseFuncFailed Bool accumulator
 //@ func (*MinerSmartContract).setPhaseNode
 //@   prop C38
 //@   requires msc != nil && pn != nil && gn != nil && balances != nil && t != nil
 //@   requires 0 <= pn.Phase && pn.Phase < 1000 && 0 <= pn.StartRound && pn.StartRound <= pn.CurrentRound && 0 <= pn.Restarts && pn.Restarts < MaxInt64
 //@   dynamic currentMoveFunc preserves pn.Phase, pn.StartRound, pn.CurrentRound, pn.Restarts
 //@   dynamic phaseFunc preserves pn.Phase, pn.StartRound, pn.CurrentRound, pn.Restarts
+//@   dynamic currentMoveFunc failure $moveFailed
+//@   dynamic phaseFunc failure $phaseFuncFailed
+// the phase advances only when its move condition held and its phase function (if it has one and none
+// had failed before this call) succeeded; when the rounds are over and the condition does not hold, a
+// successful call has restarted the key generation at Start
+//@   ensures[advances-only-if-the-condition-holds] pn.Phase == old(pn.Phase) + 1 ==> !$moveFailed && (!old($phaseFuncFailed) ==> !$phaseFuncFailed)
+//@   ensures[failed-condition-restarts-at-start] result == nil && isViewChange && old(pn.CurrentRound - pn.StartRound >= PhaseRounds[pn.Phase]) && $moveFailed ==> pn.Phase == 0 && pn.StartRound == pn.CurrentRound && pn.Restarts == old(pn.Restarts) + 1
+//@   ensures[failed-phase-function-restarts-at-start] result == nil && !old($phaseFuncFailed) && $phaseFuncFailed ==> pn.Phase == 0 && pn.StartRound == pn.CurrentRound && pn.Restarts == old(pn.Restarts) + 1
 //@   ensures[stays-until-its-rounds-are-over] !(isViewChange && old(pn.CurrentRound - pn.StartRound >= PhaseRounds[pn.Phase])) ==> pn.Phase == old(pn.Phase) && pn.StartRound == old(pn.StartRound) && pn.Restarts == old(pn.Restarts)
 //@   ensures[next-phase-or-back-to-start] pn.Phase == old(pn.Phase) || pn.Phase == 0 || pn.Phase == old(pn.Phase) + 1
 //@   ensures[a-move-restarts-the-phase-clock] pn.Phase != old(pn.Phase) ==> pn.StartRound == pn.CurrentRound
